@@ -22,6 +22,9 @@ import (
 
 type c24Slow struct {
 	Script gwsim.Script `json:"script"`
+	// Background: a broker QoS 2 message whose PUBREL never comes: the gateway's retry timer keeps
+	// writing PUBRECs to the broker from its own goroutine, also while another write is stalled
+	Background bool `json:"background,omitempty"`
 }
 
 func genC24Slow(t *rapid.T) c24Slow {
@@ -55,6 +58,14 @@ func genC24Slow(t *rapid.T) c24Slow {
 	}
 	if st {
 		unstall()
+	}
+	if rapid.IntRange(0, 2).Draw(t, "background") == 0 {
+		c.Background = true
+		sc.Cfg.RetryDelayMs = 200
+		sc.Cfg.RetryCount = 4
+		quiet := sc.Auto
+		quiet.BrokerPubrel = false
+		add(gwgen.SetAuto(quiet), gwgen.MQ(gwgen.BPublish("ab", 2, 900, []byte("background"), false, false)))
 	}
 	n := rapid.IntRange(1, 6).Draw(t, "nsteps")
 	for i := 0; i < n; i++ {
@@ -111,7 +122,12 @@ func runC24Slow(c c24Slow) (r vf.Result) {
 	}
 	r.NonTrivial = stalls > 0
 	checkMQTTValid(tr, &r)
-	if len(r.Violations) > 0 || stalls == 0 {
+	if c.Background {
+		r.Label("writes-from-a-timer-goroutine")
+	}
+	if len(r.Violations) > 0 || stalls == 0 || c.Background {
+		// (with retransmissions from a timer in the background the order of the packets depends on
+		// the stalls: only the validity of the stream is judged then)
 		return
 	}
 	// the same history with a broker that is never slow: the broker must read the same packets
@@ -150,7 +166,7 @@ func runC24Slow(c c24Slow) (r vf.Result) {
 func TestC24Slow(t *testing.T) {
 	vf.Check(t, vf.Prop[c24Slow]{
 		ID: "C24", Name: "slow-broker-stream", Bubble: true,
-		Rule: "proper sessions (CONNECT with or without will and AUTH, then 1-6 SUBSCRIBE / REGISTER / PUBLISH QoS 0-2 on predefined and short topics with payloads of 0-5000 octets) against a broker which, before two in three of the steps, stops reading after 1, 2, 3, 4, 5, 7, 12, 40, 300 or 3000 more octets (what is left of its socket buffer), for 99-450 ms (the gateway polls its writes every 100 ms), and then reads on; during a stall one or two client packets arrive. Non-trivial = at least one stall; distinct by script.",
+		Rule: "proper sessions (CONNECT with or without will and AUTH, then 1-6 SUBSCRIBE / REGISTER / PUBLISH QoS 0-2 on predefined and short topics with payloads of 0-5000 octets) against a broker which, before two in three of the steps, stops reading after 1, 2, 3, 4, 5, 7, 12, 40, 300 or 3000 more octets (what is left of its socket buffer), for 99-450 ms (the gateway polls its writes every 100 ms), and then reads on; during a stall one or two client packets arrive; in a third of the cases a retry timer of the gateway keeps writing PUBRECs to the broker from its own goroutine meanwhile (RetryDelay 200 ms). Non-trivial = at least one stall; distinct by script.",
 		Assumptions: []string{"oracle: the byte stream the broker reads parses as MQTT 3.1.1 packets which are valid (as in the first part), and it is the same sequence of packets, octet for octet, as the one a broker which is never slow reads in the same history", "the in-memory stream link models a TCP write with a deadline: it takes what fits, blocks, and returns the count written so far together with a timeout error"},
 		Gen:         genC24Slow,
 		Run:         runC24Slow,
